@@ -42,6 +42,7 @@ func runC18(c *Ctx, r *Report) {
 	c18NarrowLen(c, r, "C18.R7")
 	c14TablesFor(c, r, "C18.R8", "openvpn") // parsers reject inputs of the wrong length whatever state the message object is in (a digest left from an earlier message)
 	c18ParsersAssign(c, r, "C18.R9")
+	c18ParsersAssignAlways(c, r, "C18.R10")
 }
 
 // c18Header evaluates MessageHeader.FromBytes/ToBytes for all 256 byte values.
